@@ -237,6 +237,19 @@ def run(ctx):
     rng = ctx.rng
     for _ in range((60 if ctx.quick else 400) * (3 if ctx.search else 1)):
         do_case(ctx, {"ast": respelled_sharing(rng), "stream": "valid", "mut": "respelled-sharing"})
+    for _ in range((30 if ctx.quick else 200) * (3 if ctx.search else 1)):
+        # one explicit id on two compounds whose child lists read alike once written out: ['x', 'y'] and ['x,y'] (any text is
+        # an id: commas, blanks, brackets) — two definitions, same class, sign and value
+        sep = rng.choice([",", ", ", ",", "+", ")("])
+        x, y = rng.sample("abcdxy", 2)
+        cls = rng.choice(["Any", "All", "AtMost", "AtLeast"])
+        def mk(kids):
+            d = {"c": cls, "args": [{"c": "str", "id": k} for k in kids], "id": "B"}
+            if cls in ("AtMost", "AtLeast"): d["v"] = 1
+            return d
+        b1, b2 = mk([x, y]), mk([x + sep + y])
+        w = {"c": rng.choice(["All", "Any"]), "args": [{"c": "Any", "args": [b1, {"c": "str", "id": "p"}]}, {"c": "Imply", "cond": {"c": "str", "id": "q"}, "cons": b2}]}
+        do_case(ctx, {"ast": w, "stream": "adversarial", "mut": "child-lists-that-read-alike"})
     n = (450 if ctx.quick else 3000) * (3 if ctx.search else 1)
     for _ in range(n):
         a, o, t = gen_valid(rng, ctx.quick, empty_p=0.04)
